@@ -122,6 +122,11 @@ func (f *faultReader) Read(p []byte) (int, error) {
 	}
 	n, err := f.r.Read(p)
 	f.n += n
+	if err == io.EOF && f.failAt >= 0 {
+		// the file is shorter than the planned failure offset (it was edited after the fault was
+		// armed): the read fails at its end instead - an armed read fault always fires
+		err = ErrInjectedRead
+	}
 	return n, err
 }
 
